@@ -146,6 +146,11 @@ class _Accumulate(ast.NodeTransformer):
                 elif isinstance(prev, ast.AnnAssign) and isinstance(prev.target, ast.Name) and prev.target.id == x and prev.value is not None:
                     tgt = prev
                 gen = st.value.args[0]
+                # `x = list(G)` is `x = [*G]`
+                if tgt is not None and isinstance(tgt.value, ast.Call) and isinstance(tgt.value.func, ast.Name) and tgt.value.func.id == "list" and len(tgt.value.args) == 1 \
+                        and not tgt.value.keywords and isinstance(tgt.value.args[0], ast.GeneratorExp) and not any(isinstance(n, ast.Name) and n.id == "list" and isinstance(n.ctx, ast.Store) for n in ast.walk(self.fn)):
+                    g0 = tgt.value.args[0]
+                    tgt.value = ast.copy_location(ast.List(elts=[ast.copy_location(ast.Starred(value=g0, ctx=ast.Load()), g0)], ctx=ast.Load()), tgt.value)
                 if tgt is not None and isinstance(tgt.value, (ast.List, ast.ListComp)) and x not in _names(gen) and x not in _names(tgt.value):
                     if isinstance(tgt.value, ast.List) and not tgt.value.elts and len(gen.generators) >= 1:
                         new_val = ast.copy_location(ast.ListComp(elt=gen.elt, generators=gen.generators), tgt.value)
